@@ -14,6 +14,7 @@ From Coq Require Import List ZArith NArith Bool.
 Import ListNotations.
 From PyccoloV Require Import gen.PyAst gen.Events model.Tree model.Erase model.RwFrag proofs.EraseSound proofs.RwFragProofs.
 From PyccoloV Require Import model.FragSem proofs.FragSemProofs.
+From PyccoloV Require model.FragFun proofs.FragFunProofs.
 
 Theorem C01_erase_sound :
   forall (D : Type) (dnone : D) (sem : N -> list scalar -> list (list D) -> D) (eqvl : list D -> list D -> Prop),
@@ -109,4 +110,34 @@ Example C01_frag_semantics_nonvacuous :
   forallb src_s ex_sem = true /\
   let a := exec_l Py.binop Py.cmpop Py.unop Py.truth Py.cval Py.is_and (instr_module {| sub := fun _ => true |} ex_sem) (fun _ => None) VNone in
   s_exc a = Some EZeroDiv /\ s_env a 100%N = Some (VInt 2) /\ s_env a 101%N = Some (VBool true) /\ length (s_log a) = 32%nat.
+Proof. vm_compute. repeat split; reflexivity. Qed.
+
+(* ... and with FUNCTIONS (model/FragFun.v: module-level definitions, return, calls as right-hand sides, recursion on call-depth fuel `d`,
+   Python's local / global scoping): for all primitive operations, subscriptions `c`, guard settings `ge`, guard policies `pol`, depths, source
+   modules of the fragment and environments, the instrumented program ends with the exception (or none, or out of fuel) and the bindings of
+   the program as it is.  K-fun ties the model to the real rewriter (whole-tree equality), CPython and the real runtime. *)
+Theorem C01_fun_semantics : forall binop cmpop unop truth cval is_and c ge pol c0 pol0 m d r sv sv',
+  forallb FragFunProofs.fsrc_t m = true ->
+  FragFun.f_exc (FragFun.frun binop cmpop unop truth cval is_and c pol d (FragFun.finstr_module c ge m) r sv) =
+  FragFun.f_exc (FragFun.frun binop cmpop unop truth cval is_and c0 pol0 d m r sv') /\
+  FragFun.f_env (FragFun.frun binop cmpop unop truth cval is_and c pol d (FragFun.finstr_module c ge m) r sv) =
+  FragFun.f_env (FragFun.frun binop cmpop unop truth cval is_and c0 pol0 d m r sv').
+Proof. exact FragFunProofs.fun_plain. Qed.
+Print Assumptions C01_fun_semantics.
+
+(* non-vacuity: `def h(p): if p <= 0: return 0` / `d = h(p - 1)` / `return d + p`, then `a = h(3)`: a recursive source module; with every
+   event subscribed it ends with a = 6 (and 5 frames need depth 5: with depth 3 both the source and the instrumented program run out of fuel) *)
+Definition ex_rec : list FragFun.fstmt :=
+  [FragFun.FDef 1 100 [101]
+     [FragFun.FIf 4 (XCmp 5 (XName 6 101) [kLtE] [XConst 9 (SInt 0%Z)]) [FragFun.FReturn 10 (Some (FragFun.RExp (XConst 11 (SInt 0%Z))))] [];
+      FragFun.FAssign 12 [102] (FragFun.RCall 15 false false false (XName 16 100) [XBin 18 (XName 19 101) kSub (XConst 22 (SInt 1%Z))]);
+      FragFun.FReturn 23 (Some (FragFun.RExp (XBin 24 (XName 25 102) kAdd (XName 28 101))))];
+   FragFun.FAssign 30 [103] (FragFun.RCall 33 false false false (XName 34 100) [XConst 36 (SInt 3%Z)])]%N.
+Example C01_fun_semantics_nonvacuous :
+  forallb FragFunProofs.fsrc_t ex_rec = true /\
+  let run d := FragFun.frun Py.binop Py.cmpop Py.unop Py.truth Py.cval Py.is_and {| sub := fun _ => true |} (fun _ _ => true) d
+                 (FragFun.finstr_module {| sub := fun _ => true |} true ex_rec) (fun _ => None) VNone in
+  FragFun.f_exc (run 5%nat) = None /\ FragFun.f_env (run 5%nat) 103%N = Some (VInt 6) /\ FragFun.f_env (run 5%nat) 102%N = None /\
+  FragFun.f_exc (run 3%nat) = Some FragFun.FFuel /\
+  FragFun.f_exc (FragFun.frun Py.binop Py.cmpop Py.unop Py.truth Py.cval Py.is_and {| sub := fun _ => false |} (fun _ _ => true) 3%nat ex_rec (fun _ => None) VNone) = Some FragFun.FFuel.
 Proof. vm_compute. repeat split; reflexivity. Qed.
